@@ -280,6 +280,11 @@ def batch_plan(tier, seed):
         plan.append(('v33 bitmap', 'bitmap', dict(mversion=33, subset_counts=(1, 2), seeds=((rot + 1) % 5,), fmax=2, slack=0)))
         plan.append(('v35 plain ed3', 'plain', dict(mversion=35, editions=(3,), subset_counts=(2,), seeds=((rot + 3) % 5,), slack=0)))
         plan.append(('v13 struct ed2', 'struct', dict(mversion=13, editions=(2,), subset_counts=(1,), seeds=((rot + 4) % 5,), fmax=1, slack=0)))
+        # grammar-derived templates of this seed (vf/gen.py), each group under another table version / edition
+        mv = [(33, 4), (35, 3), (13, 2), (41, 4), (19, 3)]
+        for k, g in enumerate(('rnd_plain', 'rnd_struct', 'rnd_bitmap')):
+            v, ed = mv[(seed + k) % 5]
+            plan.append(('v%d %s' % (v, g.replace('_', ' ')), g, dict(mversion=v, editions=(ed,), subset_counts=(1, 2), seeds=((rot + k) % 5,), fmax=2, slack=0)))
     else:
         for mv in (33, 35, 13, 19, 41):
             eds = {33: (4,), 35: (3,), 13: (2,), 19: (4,), 41: (3,)}[mv]
@@ -288,6 +293,9 @@ def batch_plan(tier, seed):
             if mv == 33:
                 plan.append(('v33 struct fmax3', 'struct', dict(mversion=mv, editions=eds, subset_counts=(1,), seeds=((rot + 1) % 5,), fmax=3, slack=0)))
             plan.append(('v%d bitmap' % mv, 'bitmap', dict(mversion=mv, editions=eds, subset_counts=(1, 2), seeds=(rot, (rot + 3) % 5), fmax=2, slack=1)))
+            for k, g in enumerate(('rnd_plain', 'rnd_struct', 'rnd_bitmap')):
+                plan.append(('v%d %s' % (mv, g.replace('_', ' ')), g, dict(mversion=mv, editions=eds, subset_counts=(1, 2, 3) if k == 0 else (1, 2),
+                                                                           seeds=((rot + k) % 5, (rot + k + 2) % 5), fmax=2, slack=0)))
     return plan
 
 
